@@ -7,7 +7,7 @@
    not reused) — SHA-256 collision freedom plus the harness's injective id
    assignment; its boolean form is evaluated on every generated history. *)
 From Sky Require Import Base.Uint Model.Ledger Model.LedgerSpec Model.LedgerObs
-  Proofs.LedgerBasics Proofs.LedgerProofs Proofs.LedgerUtxo Proofs.LedgerPremises
+  Proofs.LedgerBasics Proofs.LedgerProofs Proofs.LedgerUtxo Proofs.LedgerAppend Proofs.LedgerArb Proofs.LedgerPremises
   Proofs.LedgerExample.
 From Coq Require Import Permutation.
 Open Scope Z_scope.
@@ -78,6 +78,30 @@ Theorem C02_utxo_step : forall g U s b head spent,
   inv_utxo g U s -> inv_utxo g U (apply_block s b spent).
 Proof. exact apply_preserves_utxo. Qed.
 Print Assumptions C02_utxo_step.
+
+(* ---- the same on an ARBITRATING node (run_arb: exec_block_arb drops invalid /
+   conflicting transactions and stores the rest) *)
+Theorem C02_utxo_exact_arb : forall g ops, genesis_wf g -> ids_consistent g (ops_txns ops) ->
+  let s := run_arb (init_state g) ops in
+  Permutation (ids (utxo s)) (list_minus (created_ids (chain s)) (spent_ids (chain s))).
+Proof. exact utxo_exact_arb. Qed.
+Print Assumptions C02_utxo_exact_arb.
+
+Theorem C02_spent_once_arb : forall g ops, genesis_wf g -> ids_consistent g (ops_txns ops) ->
+  NoDup (spent_ids (chain (run_arb (init_state g) ops))).
+Proof. exact spent_once_arb. Qed.
+Print Assumptions C02_spent_once_arb.
+
+Theorem C02_created_once_arb : forall g ops, genesis_wf g -> ids_consistent g (ops_txns ops) ->
+  NoDup (created_ids (chain (run_arb (init_state g) ops))).
+Proof. exact created_once_arb. Qed.
+Print Assumptions C02_created_once_arb.
+
+(* the kept transactions spend only unspent outputs, none twice, and create new ids *)
+Theorem C02_arbitration_ok : forall pool head ts l, process_txns_arb pool head ts = ArbOk l ->
+  txns_ok pool head l /\ incl l ts.
+Proof. exact process_txns_arb_ok. Qed.
+Print Assumptions C02_arbitration_ok.
 
 Theorem C02_premises_checked : forall h, premises_b h = true ->
   genesis_wf (hi_genesis h) /\ ops_in_range (hist_ops h) /\
